@@ -157,6 +157,9 @@ def cases_linear(tier):
         for rows, n in ((1, 1), (1, 2), (2, 2)) + (((2, 1), (1, 3), (2, 3), (3, 2)) if tier == "thorough" else ()):
             for lk, uk in itertools.product(("fin", "-inf"), ("fin", "+inf")):
                 yield "%s/rows%d-vars%d/%s/%s" % (which, rows, n, lk, uk), {"which": which, "rows": rows, "n": n, "lk": lk, "uk": uk}
+            # the same scaler object has served another configuration (other linear constraints) before: nothing of that one is kept
+            yield "%s/rows%d-vars%d/fin/fin/scaler-used-for-another-configuration-before" % (which, rows, n), {"which": which, "rows": rows, "n": n, "lk": "fin", "uk": "fin", "prior": True}
+            yield "%s/rows%d-vars%d/fin/fin/scaler-used-for-a-configuration-with-one-more-constraint-before" % (which, rows, n), {"which": which, "rows": rows, "n": n, "lk": "fin", "uk": "fin", "prior": True, "prior_rows": rows + 1}
 
 
 def scn_linear(T, case):
@@ -169,6 +172,12 @@ def scn_linear(T, case):
     lb = T.real("lb", (rows,), kinds=np.array([case["lk"]] * rows, dtype=object))
     ub = T.real("ub", (rows,), kinds=np.array([case["uk"]] * rows, dtype=object))
     T.assume(T.all(lb <= ub))
+    if case.get("prior"):
+        prows = case.get("prior_rows", rows)
+        Ap = T.real("A_of_the_earlier_configuration", (prows, n))
+        T.assume(T.all([T.any([~T.same(Ap[r, i], 0.0 * Ap[r, i]) if T.symbolic else Ap[r, i] != 0 for i in range(n)]) for r in range(prows)]))
+        lbp = T.real("lb_of_the_earlier_configuration", (prows,))
+        sc.linear_constraints_to_optimizer(Ap, lbp, T.real("ub_of_the_earlier_configuration", (prows,), ge=lbp))
     Ah, lh, uh = sc.linear_constraints_to_optimizer(A, lb, ub)
     x = T.real("x", (n,))
     xh = sc.to_optimizer(x)
